@@ -14,6 +14,10 @@ import Martian.VdrFs
 import Martian.VdrBuild
 import Proofs.VdrBuild
 import Proofs.VdrListed
+import Proofs.VdrRefuse
+import Proofs.VdrFinal
+import Proofs.VdrFs
+import Proofs.VdrHyp
 
 namespace Props.C14
 open Martian.Vdr
@@ -49,16 +53,40 @@ lie lexically inside the pipestance directory, and no symbolic link is a
 proper ancestor of an entry (`ParentsReal`: a link is an entry of its own and
 is never descended into).  Then every removed path still has only real
 directories as parent components — `os.RemoveAll` acts exactly where the path
-is written, removing a link as a link — and that place is inside the
-pipestance directory. -/
+is written (`throughLink e p = p` for every link `e`: `parentsReal_acts_in_place`),
+removing a link as a link — and that place is inside the pipestance directory.
+(That what is removed was an entry of the fork's own directories holds by
+construction of the model: the passes filter the fork's entry list.) -/
 theorem inside_pipestance (c : Cfg) (s0 : St) (evs : List Ev) (root : Path) (fs : List FsEnt)
     (fr : s0.removed = []) (h : ∀ d ∈ s0.disk, pathIsInside d.path root = true)
     (hreal : ∀ d ∈ s0.disk, ParentsReal fs d.path) :
-    ∀ d ∈ (run c s0 evs).removed, pathIsInside d.path root = true ∧ ParentsReal fs d.path := by
+    ∀ d ∈ (run c s0 evs).removed, pathIsInside d.path root = true ∧ ParentsReal fs d.path ∧
+      ∀ e ∈ fs, pathIsInside (throughLink e d.path) root = true := by
   intro d hd
   rcases (shr_run c s0 evs).removed d hd with h1 | h1
   · rw [fr] at h1; cases h1
-  · exact ⟨h d h1, hreal d h1⟩
+  · refine ⟨h d h1, hreal d h1, ?_⟩
+    intro e he
+    rw [parentsReal_acts_in_place fs d.path (hreal d h1) e he]
+    exact h d h1
+
+/-- … and when a directory ABOVE the fork is a link (a relocated sub-pipeline
+directory: `ParentsReal` fails for every entry of the fork), VDR refuses the
+fork — `Node.vdrCheckSymlink`, since the repair of this round applied to the
+fork's own transitions too — i.e. no temp cleaning and no kill pass runs, and
+then nothing at all is removed (`refused_fork_untouched` below).  So for every
+fork: either every removed path is acted on in place, inside the pipestance,
+or nothing is removed. -/
+theorem removed_in_place_or_nothing (c : Cfg) (s0 : St) (evs : List Ev) (root : Path) (fs : List FsEnt)
+    (fr : s0.removed = []) (h : ∀ d ∈ s0.disk, pathIsInside d.path root = true)
+    (hcase : (∀ d ∈ s0.disk, ParentsReal fs d.path) ∨ (∀ e ∈ evs, e.removes = false)) :
+    ∀ d ∈ (run c s0 evs).removed, ∀ e ∈ fs, pathIsInside (throughLink e d.path) root = true := by
+  rcases hcase with hreal | href
+  · intro d hd
+    exact (inside_pipestance c s0 evs root fs fr h hreal d hd).2.2
+  · intro d hd
+    rw [(run_refused c s0 evs href).2.1, fr] at hd
+    cases hd
 
 /-- Without `ParentsReal` the lexical statement is worthless — the defect of
 the walk that followed a link at its root: the entry `/ps/files/ref/x.txt`
@@ -74,7 +102,12 @@ theorem followed_link_leaves_pipestance :
 theorem disk_only_shrinks (c : Cfg) (s0 : St) (evs : List Ev) :
     ∀ d ∈ (run c s0 evs).disk, d ∈ s0.disk := (shr_run c s0 evs).disk
 
-/-- **report_exact.**  For every configuration (volatile, strict, splitting
+/-- **report_exact_partial.**  (Partial: needs `DiskWF`, in particular `LinksTop` — no
+symbolic link below another entry of the files/ directories — which is inside
+the property's domain; the full statement without it is FALSE in code and
+model alike, see `report_undercounts_nested_link`.  For temp cleaning and the
+passes of non-volatile forks the equality holds by definition of the model's
+accounting; the content is the per-file pass `vdrKillSome`.)  For every configuration (volatile, strict, splitting
 or not) and under every interleaving: the report's count is the number of
 entries removed and its size the sum of their sizes.  The proof maintains the
 one-to-one alignment between the file -> arguments cache and the entries
@@ -84,7 +117,7 @@ cacheParamFileMap / updateParamFileCache / vdrKillSome / temp cleaning.
 `DiskWF`: temp entries are not below files/ entries, and symbolic links are
 not below another entry of the files/ directories (`LinksTop`; see
 `report_undercounts_nested_link`). -/
-theorem report_exact (c : Cfg) (s0 : St) (evs : List Ev) (ok : CfgOK c s0) (wf : DiskWF s0.disk)
+theorem report_exact_partial (c : Cfg) (s0 : St) (evs : List Ev) (ok : CfgOK c s0) (wf : DiskWF s0.disk)
     (fr : Fresh s0) (h0 : s0.report.count = 0 ∧ s0.report.size = 0) :
     (run c s0 evs).report.count = (run c s0 evs).removed.length ∧
     (run c s0 evs).report.size = sumSize (run c s0 evs).removed :=
@@ -118,7 +151,7 @@ theorem reclaims_all_unreferenced (c : Cfg) (s0 : St) (evs : List Ev) (ok : CfgO
     (run c s0 (evs ++ [.kill])).final = true ∧
     ∀ d ∈ (run c s0 (evs ++ [.kill])).disk, isTmp d.kind = false →
       ∃ a, Holds s0 a none ∧ refsN c a (d.path :: d.alts) = true := by
-  obtain ⟨x, r⟩ := joint_run ok wf hv (XInv.init s0 fr h0) (RInv.init c s0 fr bk hf) evs
+  obtain ⟨x, r⟩ := joint_run ok wf hv bk (XInv.init s0 fr h0) (RInv.init c s0 fr bk hf) evs
   have hrun : run c s0 (evs ++ [.kill]) = kill c (run c s0 evs) := by
     unfold run; rw [List.foldl_append]; rfl
   rw [hrun]
@@ -213,6 +246,45 @@ theorem listed_needs_one_entry_per_path :
     (run c s [.early 2]).report.paths = ["/p/x".toList] ∧
     (run c s [.early 2]).disk.map (·.path) = ["/p/x".toList] := by decide
 
+/-- **refused_fork_untouched.**  A fork VDR refuses (its node lies below a
+symbolic link: `Node.vdrCheckSymlink`; no temp cleaning and no kill pass is
+performed for it): whatever else happens — consumers complete, fail, are
+reset, its bookkeeping is pruned, its cache is built — nothing of it is
+removed, nothing is reported and it never becomes final. -/
+theorem refused_fork_untouched (c : Cfg) (s0 : St) (evs : List Ev) (h : ∀ e ∈ evs, e.removes = false) :
+    (run c s0 evs).disk = s0.disk ∧ (run c s0 evs).removed = s0.removed ∧
+    (run c s0 evs).report = s0.report ∧ (run c s0 evs).final = s0.final :=
+  run_refused c s0 evs h
+
+/-! ### completion: final for every configuration, temp directories and chunk files gone -/
+
+/-- **final_when_all_done.**  For EVERY configuration (volatile or not, strict or
+not): a complete-state pass at a moment when every remaining post node has
+completed makes the fork final. -/
+theorem final_when_all_done (c : Cfg) (s0 : St) (evs : List Ev)
+    (hdone : ∀ p ∈ (run c s0 evs).postNodes, p.1 ∈ (run c s0 evs).doneNodes) :
+    (run c s0 (evs ++ [.kill])).final = true := by
+  have hrun : run c s0 (evs ++ [.kill]) = kill c (run c s0 evs) := by
+    unfold run; rw [List.foldl_append]; rfl
+  rw [hrun]
+  exact kill_final_any hdone
+
+/-- **tmp_and_chunk_files_gone_at_completion.**  When that pass has run — for a
+non-volatile fork as for any other — no entry of the split / chunk / join temp
+directories is left, and for a non-volatile (non-strict) splitting stage no
+chunk-level file is left either. -/
+theorem tmp_and_chunk_files_gone_at_completion (c : Cfg) (s0 : St) (evs : List Ev) (hr : s0.ran = [])
+    (hf : s0.final = false)
+    (hdone : ∀ p ∈ (run c s0 evs).postNodes, p.1 ∈ (run c s0 evs).doneNodes) :
+    (∀ d ∈ (run c s0 (evs ++ [.kill])).disk, ∀ ph, ph < 3 → (ph ≠ 0 ∨ c.splits = true) → d.kind ≠ .tmp ph) ∧
+    (c.volatile = false → c.strict = false → c.splits = true →
+      ∀ d ∈ (run c s0 (evs ++ [.kill])).disk, d.kind ≠ .chunk) := by
+  have hfin := final_when_all_done c s0 evs hdone
+  refine ⟨tmp_gone_when_final c s0 (evs ++ [.kill]) hr hf hfin, ?_⟩
+  intro hv hs hsp d hd hk
+  have i0 : CInv c s0 := fun h => by rw [hf] at h; cases h
+  exact (i0.run hv hs (evs ++ [.kill])) hfin d hd ⟨hsp, hk⟩
+
 /-! ### `BK` is what the construction establishes -/
 
 /-- **built_bookkeeping_consistent.**  The tables `attachToFileParents` /
@@ -239,19 +311,22 @@ theorem reclaims_all_unreferenced_built (tr : PTree) (w : wfOps [] [] (opsOf tr)
       ∃ a, Holds (t.st disk) a none ∧ refsN c a (d.path :: d.alts) = true :=
   reclaims_all_unreferenced c (t.st disk) evs ok wf ⟨rfl, rfl⟩ ⟨rfl, rfl⟩ hv ((build_bk w h).st disk) rfl hdone
 
-/-- **clone_keeps_consistency.**  Dynamic fork expansion: the fork `cloneFork`
+theorem clone_after_history_consistent (c : Cfg) (s0 : St) (evs : List Ev) (ok : CfgOK c s0)
+    (wf : DiskWF s0.disk) (fr : Fresh s0) (h0 : s0.report.count = 0 ∧ s0.report.size = 0)
+    (hv : c.volatile = true) (bk : BK s0) (hf : s0.final = false) (disk : List DiskEnt) :
+    BK (cloneFork (run c s0 evs) disk) := by
+  obtain ⟨_, r⟩ := joint_run ok wf hv bk (XInv.init s0 fr h0) (RInv.init c s0 fr bk hf) evs
+  exact cloneFork_bk r.bk disk
+
+/-! ### definitional unfoldings (documentation of the model, not guarantees) -/
+
+/-- `cloneFork` is a value copy of the two tables in the model, so `BK` transfers by rewriting
+(non-sharing of the real Go maps is probed on real forks, not proved).  Dynamic fork expansion: the fork `cloneFork`
 makes of a consistent fork — at construction or after any history of the
 original — is consistent, fresh and not final. -/
 theorem clone_keeps_consistency (s : St) (disk : List DiskEnt) (k : BK s) :
     BK (cloneFork s disk) ∧ Fresh (cloneFork s disk) ∧ (cloneFork s disk).final = false :=
   ⟨cloneFork_bk k disk, ⟨rfl, rfl⟩, rfl⟩
-
-theorem clone_after_history_consistent (c : Cfg) (s0 : St) (evs : List Ev) (ok : CfgOK c s0)
-    (wf : DiskWF s0.disk) (fr : Fresh s0) (h0 : s0.report.count = 0 ∧ s0.report.size = 0)
-    (hv : c.volatile = true) (bk : BK s0) (hf : s0.final = false) (disk : List DiskEnt) :
-    BK (cloneFork (run c s0 evs) disk) := by
-  obtain ⟨_, r⟩ := joint_run ok wf hv (XInv.init s0 fr h0) (RInv.init c s0 fr bk hf) evs
-  exact cloneFork_bk r.bk disk
 
 /-! ### non-vacuity -/
 
@@ -270,6 +345,54 @@ example :
   simp at hd hd'
   rcases hd with rfl | rfl | rfl | rfl <;> rcases hd' with rfl | rfl | rfl | rfl <;>
     first | rfl | (exact absurd e (by decide))
+
+/-- a symbolic link at the top of files/ (`LinksTop` holds non-trivially): the junk goes, the
+link is kept through the name of what it points to, and the report is exact -/
+example :
+    let c : Cfg := { volatile := true, strict := true, splits := false
+                     argNames := [("a", ["/p/f/real/x".toList])], argFiles := [("a", ["/p/f/real/x".toList])]
+                     initArgs := [("a", [none])] }
+    let s : St := { fileArgs := [("a", [none])], postNodes := [],
+                    disk := [⟨"/p/f/real".toList, 4096, .out, []⟩, ⟨"/p/f/real/x".toList, 1, .out, []⟩,
+                             ⟨"/p/f/lnk".toList, 6, .out, ["/p/f/real/x".toList]⟩, ⟨"/p/f/junk".toList, 3, .out, []⟩] }
+    cfgOKB c s = true ∧ sepB s.disk = true ∧ linksTopB s.disk = true ∧
+    (run c s [.cacheMap, .kill]).disk.map (·.path) = ["/p/f/real".toList, "/p/f/real/x".toList, "/p/f/lnk".toList] ∧
+    (run c s [.cacheMap, .kill]).report.count = 1 ∧ (run c s [.cacheMap, .kill]).removed.length = 1 := by
+  decide
+
+/-- a non-volatile splitting fork with entries in all three temp phases: all gone and final
+after the complete-state pass, chunk files too; a partial cleanup, a RESTART of mrp and the
+final cleanup give the same -/
+example :
+    let c : Cfg := { volatile := false, strict := false, splits := true, argNames := [], argFiles := [] }
+    let s : St := { fileArgs := [], postNodes := [],
+                    disk := [⟨"/p/s/tmp/a".toList, 2, .tmp 0, []⟩, ⟨"/p/c0/tmp/d".toList, 4096, .tmp 1, []⟩,
+                             ⟨"/p/j/tmp/t".toList, 3, .tmp 2, []⟩, ⟨"/p/c0/files/x".toList, 4, .chunk, []⟩,
+                             ⟨"/p/j/files/o".toList, 9, .out, []⟩] }
+    (run c s [.kill]).final = true ∧ (run c s [.kill]).disk.map (·.path) = ["/p/j/files/o".toList] ∧
+    (run c s [.early 1, .restart, .kill]).disk.map (·.path) = ["/p/j/files/o".toList] ∧
+    (run c s [.early 1, .restart, .kill]).report.count = 4 ∧
+    (run c s [.early 1, .restart, .kill]).removed.length = 4 := by
+  decide
+
+/-- restart between partial and final cleanup of the volatile fork of Props/C04.lean's example:
+the consumer completes after the restart; count and removed agree, `a`'s file stays -/
+example :
+    (run exCfg exSt [.removeEmpty, .cacheMap, .kill, .restart, .nodeDone "C", .kill]).report.count = 4 ∧
+    (run exCfg exSt [.removeEmpty, .cacheMap, .kill, .restart, .nodeDone "C", .kill]).removed.length = 4 ∧
+    (run exCfg exSt [.removeEmpty, .cacheMap, .kill, .restart, .nodeDone "C", .kill]).disk.map (·.path) =
+      ["/p/files/a.txt".toList] ∧
+    (cloneFork (run exCfg exSt [.removeEmpty, .cacheMap, .kill]) []).postNodes = [("C", ["a", "b"])] := by
+  decide
+
+/-- a refused fork: the history of Props/C04.lean's example without its kill passes removes nothing -/
+example : (∀ e ∈ [Ev.removeEmpty, .cacheMap, .nodeDone "C"], e.removes = false) ∧
+    (run exCfg exSt [.removeEmpty, .cacheMap, .nodeDone "C"]).removed = [] := by
+  constructor
+  · intro e he
+    simp at he
+    rcases he with rfl | rfl | rfl <;> rfl
+  · decide
 
 /-- the construction yields tables (for node `A` of `exTree`: one consumer, one retain) -/
 example : wfOps [] [] (opsOf exTree) = true ∧ ((build (opsOf exTree)).lookup "A").isSome = true := by
@@ -295,7 +418,7 @@ example :
     (run c s [.early 2, .kill]).report.count = 3 ∧ (run c s [.early 2, .kill]).report.size = 4103 := by
   decide
 
-/-- the hypotheses of `report_exact` / `reclaims_all_unreferenced` are satisfiable
+/-- the hypotheses of `report_exact_partial` / `reclaims_all_unreferenced` are satisfiable
 (the fork of Props/C04.lean's example) and the conclusions are not vacuous -/
 example : DiskWF exSt.disk ∧ BK exSt ∧ exSt.final = false ∧
     (run exCfg exSt [.removeEmpty, .cacheMap, .kill, .nodeDone "C", .kill]).report.count = 4 ∧
